@@ -167,7 +167,7 @@ PROPS = {
         technique="property-based whole-cluster simulation (rapid + synctest): real node stacks wired by core.Wire over an in-memory network, generated schedules / crashes / equivocating partial signatures; history invariant over everything handed to the broadcaster and the aggregate store, verified with an independent signing table",
         level_text="n production node stacks (consensus component, dutydb, validatorapi, parsigdb, parsigex, sigagg, aggsigdb, deadliners) on virtual time; the harness owns every frame and plays the validator clients. "
                    "Every object any node hands to Broadcaster.Broadcast or AggSigDB.Store, and every object its production broadcaster (core/bcast) then submits to the beacon node, must verify under the group key for the spec signing root of its own content, and all objects of one (duty, validator) must share one signing root.",
-        level_note="The scheduler is a stub; the fetcher is the production one in half of the cases (per-node view of the beacon node), a stub otherwise; duties: attester, sync message, exit, and (with the production fetcher) randao + proposer and selection-proof + aggregator end to end; the sync-contribution flow is not exercised. "
+        level_note="The scheduler is a stub; the fetcher is the production one in half of the cases (per-node view of the beacon node), a stub otherwise; duties: attester, sync message, exit, and (with the production fetcher) randao + proposer, selection-proof + aggregator and sync-selection + sync-contribution (single-contribution wire format) end to end; every node's production broadcaster (core/bcast) submits to a recording beacon node. "
                    "Byzantine behaviour is partial-signature only (consensus adversaries: C02); lock-level races are not controlled; signing roots come from specsign.",
         runs={
             "quick": [dict(test="TestC01Cluster", checks=90, shards=8, shrinktime="15s")],
